@@ -30,6 +30,9 @@ impl ExactDist {
             words = words.saturating_mul(syms.len() as u64);
             acc = next;
         }
+        // words scoring -inf (a -inf cell under a symbol with non-zero frequency) are never >= a
+        // finite score: they carry no tail mass and are not attainable scores
+        acc.retain(|x| x.0 != f64::NEG_INFINITY);
         acc.sort_by(|a, b| a.0.partial_cmp(&b.0).unwrap());
         let mut scores = Vec::new();
         let mut mass: Vec<f64> = Vec::new();
@@ -96,6 +99,20 @@ pub fn dyadic_nonzero_bg(rng: &mut Rng, k: usize) -> Vec<f32> {
     let mut v: Vec<f32> = parts.iter().map(|&p| p as f32 / unit as f32).collect();
     v.push(0.0);
     v
+}
+
+/// dyadic background over ALL k symbols, the wildcard included (all non-zero)
+pub fn dyadic_full_bg(rng: &mut Rng, k: usize) -> Vec<f32> {
+    let unit = if k <= 5 { 64u32 } else { 256u32 };
+    let mut parts = vec![1u32; k];
+    let mut left = unit - k as u32;
+    while left > 0 {
+        let j = rng.below(k);
+        let add = rng.range(1, left as usize) as u32;
+        parts[j] += add;
+        left -= add;
+    }
+    parts.iter().map(|&p| p as f32 / unit as f32).collect()
 }
 
 pub fn uniform_bg(k: usize) -> Vec<f32> {
